@@ -124,7 +124,40 @@ class Check:
 
     # ------------------------------------------------------------------ lean
     def lean_build(self, props_modules, driver=None, extra_targets=()):
-        """build property modules (+ driver exe), audit axioms of every theorem in them"""
+        """build property modules (+ driver exe), audit axioms of every theorem in them.
+
+        Modules whose name ends in `Gen` hold the *mechanical-tie* obligations (`Generated.f = HandModel.f` for code read
+        off the current source by a subset translator, plus the transferred theorems). They are built separately: when one
+        of them no longer checks, that piece is treated exactly like a construct outside the translator's subset
+        (`untranslated`): the tie of the hand model to the code falls back to the correspondence run, the module's theorems
+        are not counted, and the event is recorded in the evidence -- it is not by itself a violation. Every other module
+        is strict: a theorem that no longer checks is a broken obligation."""
+        gen_modules = [m for m in props_modules if m.endswith('Gen')]
+        props_modules = [m for m in props_modules if not m.endswith('Gen')]
+        ok = self._lean_build_strict(props_modules, driver, extra_targets)
+        for gm in gen_modules:
+            cmd = ['lake', 'build', gm]
+            self.checker_cmds.append('cd lean && ' + ' '.join(cmd))
+            with open(os.path.join(LEAN, '.lake', 'verif.lock'), 'w') as lk:
+                fcntl.flock(lk, fcntl.LOCK_EX)
+                p = subprocess.run(cmd, cwd=LEAN, capture_output=True, text=True)
+            if p.returncode != 0:
+                broken = self._broken_theorems(p.stdout + p.stderr, [gm])
+                self.notes.append({'mechanical_tie_broken': gm, 'treated_as': 'untranslated (falls back to correspondence)',
+                                   'errors': (broken or [(p.stdout + p.stderr)[-600:]])[:8]})
+                self.generated_changed.append('tie-broken:' + gm)
+                continue
+            path = os.path.join(LEAN, gm.replace('.', '/') + '.lean')
+            self.obligations += theorems_in(path)
+            before = len(self.lean_problems)
+            self._audit([gm])
+            self._lean_modules.append(gm)
+            if len(self.lean_problems) > before:
+                ok = False
+        self._grep_forbidden()
+        return ok and not self.lean_problems
+
+    def _lean_build_strict(self, props_modules, driver=None, extra_targets=()):
         targets = list(props_modules) + list(extra_targets) + ([driver] if driver else [])
         self._lean_modules = list(props_modules) + list(extra_targets) + (['Driver.' + driver[4:].upper()] if driver and driver.startswith('drv_c') else [])
         cmd = ['lake', 'build'] + targets
@@ -150,7 +183,6 @@ class Check:
                     raise InfraError('driver build failed:\n' + (p2.stdout + p2.stderr)[-3000:])
             return False
         self._audit(props_modules)
-        self._grep_forbidden()
         return not self.lean_problems
 
     def _broken_theorems(self, out, props_modules):
